@@ -273,7 +273,7 @@ theorem sorted_putAux (sw : StrictWeak lt) {tb : Tab K V} (k : K) (v : V) (hn : 
     (h : Sorted lt tb.m) : Sorted lt (tb.putAux (some lt) k v).m := by
   unfold putAux
   by_cases hh : has tb.m k = true
-  · simp only [hh, if_true, reposition]
+  · simp only [hh, if_true, valueChanged, ha, Bool.not_true, Bool.and_false, Bool.false_eq_true, if_false, reposition]
     have hs := sorted_repositionM sw (m := setVal tb.m k v) k (by simpa using hn) (by rw [erase_setVal]; exact sorted_erase k h)
     split
     · exact hs
